@@ -118,7 +118,7 @@ def check_C15(tier, seed):
 def check_C12(tier, seed):
     v = Verdict("C12", tier, seed)
     exe = build_driver("asan")
-    for c in cfgs(tier, ["ignore_quick.cfg", "ignore_kv.cfg", "ignore_two.cfg"], ["ignore_comments.cfg", "ignore_thorough.cfg"]):
+    for c in cfgs(tier, ["ignore_quick.cfg", "ignore_kv.cfg", "ignore_two.cfg", "ignore_dep.cfg"], ["ignore_comments.cfg", "ignore_thorough.cfg"]):
         res = tlc_parse(v, c, INV_IGNORE)
         if c == "ignore_two.cfg":
             res.behaviours = [b for b in res.behaviours if len(b["parses"]) == 2]
